@@ -26,6 +26,9 @@ def main():
                      traceback.format_exc()[-1500:]}
             faulthandler.cancel_dump_traceback_later()
             r['n'] = c.get('_n')
+            m = sys.modules.get('mistral')
+            if m is not None:
+                r['code'] = os.path.dirname(os.path.dirname(m.__file__))
             r.pop('trace', None)
             out.write(json.dumps(r, default=str) + '\n')
             out.flush()
